@@ -1405,14 +1405,19 @@ def pattern_neg32(context, tree, c0):
     return d
 
 
-@arm_isa.pattern("reg", "INVI32(reg)", size=4)
-@arm_isa.pattern("reg", "INVU32(reg)", size=4)
+@arm_isa.pattern("reg", "INVI32(reg)", size=8)
+@arm_isa.pattern("reg", "INVU32(reg)", size=8)
+@arm_isa.pattern("reg", "INVI16(reg)", size=8)
+@arm_isa.pattern("reg", "INVU16(reg)", size=8)
+@arm_isa.pattern("reg", "INVI8(reg)", size=8)
+@arm_isa.pattern("reg", "INVU8(reg)", size=8)
 def pattern_inv32(context, tree, c0):
+    # ~x = -x - 1 (there is no runtime routine __inv32)
     d = context.new_reg(ArmRegister)
-    context.move(R1, c0)
-    context.emit(Bl("__inv32"))
-    context.move(d, R0)
-    return d
+    context.emit(RsbImm(d, c0, 0))
+    d2 = context.new_reg(ArmRegister)
+    context.emit(SubImm(d2, d, 1))
+    return d2
 
 
 # TODO: Do that here, or in irdag?
